@@ -241,6 +241,7 @@ def check(spec):
     sig = {}
     cur = ddf
     diverged = ""  # first step after which the reported divisions differ from those of the optimized expression
+    diverged_on = ""  # ... and the step before it (what that step was applied to)
     with dask.config.set({"dataframe.shuffle.method": "tasks"}), C.quiet():
         for step in spec["steps"]:
             opname = step["op"] + ("-" + step["mode"] if "mode" in step else "") + ("-" + step["kind"] if "kind" in step else "")
@@ -264,17 +265,19 @@ def check(spec):
                     lowered = None
                 if lowered is None or _divs_key(lowered) != _divs_key(reported):
                     diverged = opname
+                    diverged_on = applied[-2] if len(applied) > 1 else "source"
             # the cheap clause is judged after every step so that the signature names the step that broke it
             if C.divisions_known(reported):
                 # sig: the step, and whether npartitions over- or under-states the division vector
                 ensure(cur.npartitions == len(reported) - 1, f"after {' -> '.join(applied)}: npartitions={cur.npartitions} but divisions {short(reported)}", "npartitions-vs-divisions", op=opname,
-                       npartitions="more-than-divisions" if cur.npartitions > len(reported) - 1 else "fewer-than-divisions")
+                       npartitions="more-than-divisions" if cur.npartitions > len(reported) - 1 else "fewer-than-divisions",
+                       after_partitions="partitions" in applied[:-1])
         if not applied:
             raise Reject("no applicable step")
         what = f"source divisions {short(ddf.divisions, 100)} -> {' -> '.join(applied)}"
         # sig: the last step, and (if any) the first step at which optimize() changes the reported divisions - the
         # common root of most failures (the frame reports divisions that the executed expression does not have)
-        sig = dict(op=applied[-1], divisions_differ_after_optimize=diverged)
+        sig = dict(op=applied[-1], prev=applied[-2] if len(applied) > 1 else "source", divisions_differ_after_optimize=diverged, diverged_on=diverged_on)
         known = C.divisions_known(cur.divisions)
         if not known:
             # C41 speaks about frames that report known divisions ((nan, nan) of an empty set_index counts as unknown)
@@ -289,17 +292,28 @@ def check(spec):
                 # partition is shorter than the overlap): no partitions exist to judge
                 raise Reject("not implemented") from None
             raise
-        C.check_divisions_truthful(cur, what, dict(sig, frame="as-built"), parts=parts)
+        _truthful(cur, what, dict(sig, frame="as-built"), parts)
         # cur.optimize() is a dataframe too (public API); it computes the very same partitions
         with impl("optimize", **sig):
             opt = cur.optimize()
         if C.divisions_known(opt.divisions):
-            C.check_divisions_truthful(opt, what + " -> optimize()", dict(sig, frame="optimized"), parts=parts)
+            _truthful(opt, what + " -> optimize()", dict(sig, frame="optimized"), parts)
     count("final-known")
     if diverged:
         count("reported-divisions-differ-from-optimized")
     if st_["dups"]:
         count("final-known-with-duplicate-index-values")
+
+
+def _truthful(ddf, what, sig, parts):
+    """C.check_divisions_truthful with ONE symptom for an index value outside its division interval (which side it
+    falls out on depends on the data, not on the defect); the side is kept as a separate field."""
+    try:
+        C.check_divisions_truthful(ddf, what, sig, parts=parts)
+    except Violation as v:
+        if v.sig.get("symptom") in ("below-division", "above-division"):
+            raise Violation(v.message, "outside-division", side=v.sig["symptom"].split("-")[0], **sig) from None
+        raise
 
 
 def _divs_key(divs):
